@@ -117,6 +117,141 @@ class SynthTranslator(py2mini.FuncTranslator):
         return super().stmt(s)
 
 
+class WholeTranslator(SynthTranslator):
+    """SynthTranslator over a WHOLE host function, plus desugaring rules (all into existing PyMini constructors; the
+    primitives are given meaning in Model/PrimsExec.v).  Modelled on src_api.py R2/R4/R5/R6 and src_numberify.py R6:
+
+    W1 {e for x in it}                    -> XPrim "builtins.set" [[e for x in it]]
+    W2 sorted(S, key=lambda v: e)         -> XPrim "sorted_by" [S; [e for v in S]]   (S side-effect free: evaluated twice)
+    W3 [e for a, b in it] (also genexp)   -> [e[a := $t[0], b := $t[1]] for $t in it]
+    W4 f'..{e}..'                         -> XPrim "fstring" [parts]                  (uninterpreted: the record of its parts)
+    W5 isinstance(x, C), C static         -> XPrim "isinstance:<qualified name>" [x]
+    W6 raise E, E a static class          -> SExpr (XPrim "raise:<qualified name>" [])
+    W7 f = lambda x: e  (f assigned once, every local e captures assigned once, so the value at the call is the value
+       at the definition) -> the assignment is dropped and a call f(a), a a local name, is e[x := a]"""
+
+    def __init__(self, host, name, refs, prims):
+        fd = _host_ast(host)
+        a = fd.args
+        if a.vararg or a.kwarg or a.kwonlyargs or a.posonlyargs or a.defaults:
+            raise Untranslatable('only positional parameters are supported')
+        super().__init__(host, name, [x.arg for x in a.args], fd.body, refs, prims)
+        self.alias = {}
+        stores = {}
+        for n in ast.walk(fd):
+            if isinstance(n, ast.Assign):
+                for t in n.targets:
+                    for x in ast.walk(t):
+                        if isinstance(x, ast.Name):
+                            stores.setdefault(x.id, []).append(n.value if x is t else None)
+            elif isinstance(n, (ast.AugAssign, ast.For, ast.comprehension)):
+                for x in ast.walk(n.target):
+                    if isinstance(x, ast.Name):
+                        stores.setdefault(x.id, []).append(None)
+        self.lambdas = {}
+        for k, v in stores.items():
+            if len(v) == 1 and isinstance(v[0], ast.Lambda):
+                lam = v[0]
+                la = lam.args
+                if len(la.args) != 1 or la.defaults or la.vararg or la.kwarg or la.kwonlyargs:
+                    raise Untranslatable('lambda with several parameters')
+                bound = {la.args[0].arg}
+                for x in ast.walk(lam.body):
+                    if isinstance(x, ast.comprehension):
+                        bound |= {t.id for t in ast.walk(x.target) if isinstance(t, ast.Name)}
+                for x in ast.walk(lam.body):
+                    if isinstance(x, ast.Name) and x.id not in bound and x.id in stores and len(stores[x.id]) != 1:
+                        raise Untranslatable(f'lambda captures {x.id}, which is assigned more than once')
+                self.lambdas[k] = lam
+
+    def qual(self, e):
+        d = self.dotted(e) if isinstance(e, (ast.Attribute, ast.Name)) else None
+        if d is None or (isinstance(e, ast.Name) and e.id in self.locals):
+            raise Untranslatable(f'not a static name: {ast.dump(e)[:60]}')
+        return self.ident_of(d.split('.')[0], d)
+
+    def comp(self, elt, g):
+        if len(g.ifs) > 1 or g.is_async:
+            raise Untranslatable('comprehension with several conditions')
+        it = self.expr(g.iter)
+        saved = dict(self.alias)
+        if isinstance(g.target, ast.Name):
+            var = g.target.id
+            self.alias.pop(var, None)
+        elif isinstance(g.target, ast.Tuple) and all(isinstance(t, ast.Name) for t in g.target.elts):   # W3
+            var = '$t'
+            if var in self.alias.values():
+                raise Untranslatable('nested pattern comprehensions')
+            for i, t in enumerate(g.target.elts):
+                self.alias[t.id] = f'(XIndex (XName {py2mini.gstr(var)}) (XConst (PInt {i})))'
+        else:
+            raise Untranslatable('comprehension target')
+        self.locals.add(var)
+        cond = py2mini.gopt(self.expr(g.ifs[0]) if g.ifs else None)
+        out = f'(XListComp {self.expr(elt)} {py2mini.gstr(var)} {it} {cond})'
+        self.alias = saved
+        return out
+
+    def expr(self, e):
+        if isinstance(e, ast.Name) and e.id in self.alias:
+            return self.alias[e.id]
+        if isinstance(e, (ast.ListComp, ast.GeneratorExp, ast.SetComp)):
+            if len(e.generators) != 1:
+                raise Untranslatable('nested comprehension')
+            c = self.comp(e.elt, e.generators[0])
+            return f'(XPrim "builtins.set" [{c}])' if isinstance(e, ast.SetComp) else c             # W1
+        if isinstance(e, ast.JoinedStr):                                                            # W4
+            parts = []
+            for v in e.values:
+                if isinstance(v, ast.Constant):
+                    parts.append(self.const(v.value))
+                elif isinstance(v, ast.FormattedValue) and v.format_spec is None and v.conversion == -1:
+                    parts.append(self.expr(v.value))
+                else:
+                    raise Untranslatable('format spec / conversion in f-string')
+            return f'(XPrim "fstring" {py2mini.glist(parts)})'
+        if isinstance(e, ast.Call) and isinstance(e.func, ast.Name) and e.func.id not in self.locals:
+            f = e.func.id
+            if f == 'isinstance' and len(e.args) == 2 and not e.keywords:                           # W5
+                return f'(XPrim {py2mini.gstr("isinstance:" + self.qual(e.args[1]))} [{self.expr(e.args[0])}])'
+            if f == 'sorted' and self.resolve_free('sorted') is sorted and len(e.args) == 1 \
+                    and [k.arg for k in e.keywords] == ['key'] and isinstance(e.keywords[0].value, ast.Lambda):  # W2
+                lam = e.keywords[0].value
+                la = lam.args
+                if len(la.args) != 1 or la.defaults or la.vararg or la.kwarg or la.kwonlyargs:
+                    raise Untranslatable('key function with several parameters')
+                if any(isinstance(n, (ast.Call, ast.Yield, ast.Await, ast.NamedExpr)) for n in ast.walk(e.args[0])):
+                    raise Untranslatable('sorted(key=lambda) over an expression with calls')
+                v = la.args[0].arg
+                saved = dict(self.alias)
+                self.alias.pop(v, None)
+                self.locals.add(v)
+                xs = self.expr(e.args[0])
+                out = f'(XPrim "sorted_by" [{xs}; (XListComp {self.expr(lam.body)} {py2mini.gstr(v)} {xs} None)])'
+                self.alias = saved
+                return out
+        if isinstance(e, ast.Call) and isinstance(e.func, ast.Name) and e.func.id in self.lambdas:  # W7
+            if len(e.args) != 1 or e.keywords or not isinstance(e.args[0], ast.Name) or e.args[0].id not in self.locals:
+                raise Untranslatable('call of a local lambda on something that is not a local name')
+            lam = self.lambdas[e.func.id]
+            saved = dict(self.alias)
+            self.alias[lam.args.args[0].arg] = self.expr(e.args[0])
+            out = self.expr(lam.body)
+            self.alias = saved
+            return out
+        if isinstance(e, ast.Lambda):
+            raise Untranslatable('lambda in value position')
+        return super().expr(e)
+
+    def stmt(self, s):
+        if isinstance(s, ast.Assign) and len(s.targets) == 1 and isinstance(s.targets[0], ast.Name) \
+                and self.lambdas.get(s.targets[0].id) is s.value:                                   # W7
+            return 'SPass'
+        if isinstance(s, ast.Raise) and s.exc is not None and s.cause is None and isinstance(s.exc, (ast.Name, ast.Attribute)):
+            return f'(SExpr (XPrim {py2mini.gstr("raise:" + self.qual(s.exc))} []))'                # W6
+        return super().stmt(s)
+
+
 def _is_name(e, name):
     return isinstance(e, ast.Name) and e.id == name
 
@@ -241,8 +376,10 @@ def spec_exec():
     fill = select_pivot_fill(piv)
     out.append(('exec_pivot_fill', 'beanquery.query_execute.execute_query, EvalPivot branch: from `pivoted = []` to the return',
                 synth(qx.execute_query, 'pivot_fill', fill, _host_locals(qfd)), lines(fill), True))
-    out.append(('exec_pivot', 'beanquery.query_execute.execute_query: body of the EvalPivot branch',
-                synth(qx.execute_query, 'pivot', piv, _host_locals(qfd)), lines(piv), False))
+    # the WHOLE function execute_query (dispatch, header and rows of the PIVOT BY branch), with the rules W1-W7
+    out.append(('exec_execute_query', 'beanquery.query_execute.execute_query (whole function)',
+                lambda refs, prims: WholeTranslator(qx.execute_query, 'execute_query', refs, prims),
+                len(inspect.getsource(qx.execute_query).splitlines()), True))
     return out
 
 
